@@ -493,6 +493,11 @@ pub fn run(ctx: &Arc<Ctx>) {
             }
         }
     }
+    // deviation-bounded search reports MINIMAL fault sets: a pair that contains a single
+    // substitution which already violates on its own is the same finding, not a new one
+    let (singles, pairs): (Vec<_>, Vec<_>) = faults.into_iter().partition(|(_, f)| f.len() <= 1);
+    let faults = singles;
+    let violating_singles: dashmap::DashSet<(usize, usize, usize)> = dashmap::DashSet::new();
     let mk = |ti: usize, f: &Vec<(usize, usize)>| -> Vec<(usize, bool, Fq, String)> {
         f.iter().map(|&(c, h)| { let x = &sites[ti].hints[c][h]; (c, x.0, x.1, x.2.clone()) }).collect()
     };
@@ -515,13 +520,30 @@ pub fn run(ctx: &Arc<Ctx>) {
                 }
                 return Outcome::ok(class);
             }
-            eval_fault(&dc, &ts[*ti], &subs)
+            let o = eval_fault(&dc, &ts[*ti], &subs);
+            if o.viol.is_some() && f.len() == 1 {
+                violating_singles.insert((*ti, f[0].0, f[0].1));
+            }
+            o
         },
         |(ti, f)| {
             let subs = mk(*ti, f);
             (format!("{}|{}", ts[*ti].name, ts[*ti].input), json!({"gadget": ts[*ti].name, "input": ts[*ti].input, "hints": subs.iter().map(|(i, f, y, n)| json!({"call": i, "flag": f, "y": fq_big(y).to_string(), "label": n})).collect::<Vec<_>>()}))
         },
     );
+    let npairs_all = pairs.len();
+    let pairs: Vec<(usize, Vec<(usize, usize)>)> = pairs.into_iter().filter(|(ti, f)| !f.iter().any(|(c, h)| violating_singles.contains(&(*ti, *c, *h)))).collect();
+    let nfaults = faults.len() + pairs.len();
+    run_cases(
+        ctx, "E2/C14", false,
+        pairs.par_iter(),
+        |(ti, f)| eval_fault(&dc, &ts[*ti], &mk(*ti, f)),
+        |(ti, f)| {
+            let subs = mk(*ti, f);
+            (format!("{}|{}", ts[*ti].name, ts[*ti].input), json!({"gadget": ts[*ti].name, "input": ts[*ti].input, "hints": subs.iter().map(|(i, f, y, n)| json!({"call": i, "flag": f, "y": fq_big(y).to_string(), "label": n})).collect::<Vec<_>>()}))
+        },
+    );
+    ctx.report.set("C14_pairs", json!({"pairs_enumerated": pairs.len(), "pairs_skipped_as_supersets_of_a_violating_single": npairs_all - pairs.len()}));
     // fault family B on every target
     let idx: Vec<usize> = (0..ts.len()).collect();
     let windows = std::sync::atomic::AtomicU64::new(0);
@@ -537,7 +559,7 @@ pub fn run(ctx: &Arc<Ctx>) {
     );
     ctx.report.set("C14_altbits_windows_substituted", json!(windows.load(std::sync::atomic::Ordering::Relaxed)));
     let ncalls: usize = sites.iter().map(|s| s.hints.len()).sum();
-    ctx.report.set("C14_faults", json!({"targets": ts.len(), "isqrt_call_sites": ncalls, "fault_sequences": faults.len(), "deviation_bound": if ctx.quick() { 1 } else { 2 }}));
+    ctx.report.set("C14_faults", json!({"targets": ts.len(), "isqrt_call_sites": ncalls, "fault_sequences": nfaults, "deviation_bound": if ctx.quick() { 1 } else { 2 }}));
     ctx.report.rule(format!("E2/C14[ark]: {} (gadget, input) targets with {} isqrt call sites in total; every hint of H(den) = {{true,false}} x {{0, +-1, 2, 3, +-sqrt(1/den'), +-sqrt(zeta/den'), +-honest y, honest y + 1}} substituted at each call site ({}); plus off-curve / out-of-group witnessed coordinates via hook H1; a fault sequence is distinct by (gadget, input, call sites, hints)", ts.len(), ncalls, if ctx.quick() { "one site at a time" } else { "one site and all pairs of sites" }));
     ctx.report.rule("E2/C14-altbits[ark]: fault family B: on every target, every window of 253 consecutive Boolean witnesses spelling a canonical x with x + q < 2^253 is replaced by the bits of x + q; must become unsatisfied (or the output must still equal the native result)");
     ctx.report.assume("C14: the hint set is complete for satisfying hints because the isqrt constraint block forces y^2 in {1/den', 0, zeta/den'} (den' = den, or 1 when den = 0) according to the flag");
